@@ -112,4 +112,98 @@ theorem Unpaired.ciMean_rex_tpanic (crit : Crit Rex) (u : Unpaired Rex) (conf : 
 theorem ssd_mul_self (xs : List ℝ) (hn : 1 ≤ xs.length) : ssd xs * ssd xs = svar xs :=
   Real.mul_self_sqrt (svar_nonneg xs hn)
 
+/-- the constructor of the kind applied to `m ∓ h`, exact arithmetic: `Interval::new` rejects
+    exactly when `h < 0` -/
+theorem intervalOfKind_pm (conf : Confidence Rex) (m h : ℝ) :
+    intervalOfKind (W := Rex) conf (⟨m - h⟩ : Rex) ⟨m + h⟩ =
+      match conf with
+      | .twoSided _ =>
+        if 0 ≤ h then .ok (.twoSided (⟨m - h⟩ : Rex) ⟨m + h⟩) else .err (.interval .invalidBounds)
+      | .upper _ => .ok (.upper (⟨m - h⟩ : Rex))
+      | .lower _ => .ok (.lower (⟨m + h⟩ : Rex)) := by
+  cases conf with
+  | twoSided l =>
+    simp only [intervalOfKind, Interval.new]
+    by_cases hh : 0 ≤ h
+    · have : gt (⟨m - h⟩ : Rex) ⟨m + h⟩ = false := by
+        rw [Bool.eq_false_iff, Ne, RR.gt_iff]; simp only [not_lt]; linarith
+      simp [this, hh, liftI]
+    · have : gt (⟨m - h⟩ : Rex) ⟨m + h⟩ = true := by
+        rw [RR.gt_iff]; simp only; linarith [not_le.mp hh]
+      simp [this, hh, liftI]
+  | upper l => rfl
+  | lower l => rfl
+
+/-! ### real data -/
+
+/-- `s² / n` of a sample -/
+noncomputable def welchA (xs : List ℝ) : ℝ := svar xs / xs.length
+
+/-- effective degrees of freedom of two samples -/
+noncomputable def welchNu (as bs : List ℝ) : ℝ :=
+  welchDof (welchA as) (welchA bs) as.length bs.length
+
+/-- half-width `c · √(sa²/na + sb²/nb)` with `c` the answer to the request at `ν` -/
+noncomputable def welchHalf (crit : Crit Rex) (conf : Confidence Rex) (as bs : List ℝ) : ℝ :=
+  (crit (critReq conf ⟨welchNu as bs⟩)).val * Real.sqrt (welchA as + welchA bs)
+
+theorem welchA_nonneg (xs : List ℝ) (hn : 1 ≤ xs.length) : 0 ≤ welchA xs :=
+  div_nonneg (svar_nonneg xs hn) (Nat.cast_nonneg _)
+
+theorem welchA_pos (xs : List ℝ) (hn : 1 ≤ xs.length) (h : 0 < svar xs) : 0 < welchA xs :=
+  div_pos h (by exact_mod_cast hn)
+
+theorem Unpaired.fromLists_a {F : Type} [Scalar F] (xs ys : List F) :
+    (Unpaired.fromLists xs ys).a = Arith.fromList xs := rfl
+theorem Unpaired.fromLists_b {F : Type} [Scalar F] (xs ys : List F) :
+    (Unpaired.fromLists xs ys).b = Arith.fromList ys := rfl
+
+theorem fromList_welchA (xs : List ℝ) (hn : 2 ≤ xs.length) :
+    (Arith.fromList (xs.map inj) : Arith Rex).stdDev.val *
+      (Arith.fromList (xs.map inj) : Arith Rex).stdDev.val /
+        ((Arith.fromList (xs.map inj) : Arith Rex).count : ℝ) = welchA xs := by
+  rw [Arith.fromList_stdDev xs hn, ssd_mul_self xs (by omega), Arith.fromList_count,
+    List.length_map, welchA]
+
+/-- `Unpaired::ci` of real data when the effective degrees of freedom are positive -/
+theorem Unpaired.ci_rex (crit : Crit Rex) (conf : Confidence Rex) (as bs : List ℝ)
+    (hna : 2 ≤ as.length) (hnb : 2 ≤ bs.length) (hp : probOk conf.quantile = true)
+    (hd : 0 < welchNu as bs) :
+    Unpaired.ci crit conf (as.map inj) (bs.map inj) =
+      intervalOfKind conf (⟨(smean as - smean bs) - welchHalf crit conf as bs⟩ : Rex)
+        ⟨(smean as - smean bs) + welchHalf crit conf as bs⟩ := by
+  have hca : (Arith.fromList (as.map inj) : Arith Rex).count = as.length := by
+    simp [Arith.fromList_count]
+  have hcb : (Arith.fromList (bs.map inj) : Arith Rex).count = bs.length := by
+    simp [Arith.fromList_count]
+  have hu : (Unpaired.fromLists (as.map inj) (bs.map inj) : Unpaired Rex) =
+      ⟨Arith.fromList (as.map inj), Arith.fromList (bs.map inj)⟩ := rfl
+  unfold Unpaired.ci
+  rw [hu]
+  have h := Unpaired.ciMean_rex crit
+    (⟨Arith.fromList (as.map inj), Arith.fromList (bs.map inj)⟩ : Unpaired Rex) conf
+    (by simp only [hca]; exact hna) (by simp only [hcb]; exact hnb) hp (welchA as) (welchA bs)
+    (by simp only []; exact fromList_welchA as hna) (by simp only []; exact fromList_welchA bs hnb)
+    (by simp only [hca, hcb]; exact hd)
+  simp only [hca, hcb, Arith.fromList_mean] at h
+  exact h
+
+/-- `Unpaired::ci` of real data when the effective degrees of freedom are not positive -/
+theorem Unpaired.ci_rex_tpanic (crit : Crit Rex) (conf : Confidence Rex) (as bs : List ℝ)
+    (hna : 2 ≤ as.length) (hnb : 2 ≤ bs.length) (hd : welchNu as bs ≤ 0) :
+    Unpaired.ci crit conf (as.map inj : List Rex) (bs.map inj) = .panic "t_value" := by
+  have hca : (Arith.fromList (as.map inj) : Arith Rex).count = as.length := by
+    simp [Arith.fromList_count]
+  have hcb : (Arith.fromList (bs.map inj) : Arith Rex).count = bs.length := by
+    simp [Arith.fromList_count]
+  have hu : (Unpaired.fromLists (as.map inj) (bs.map inj) : Unpaired Rex) =
+      ⟨Arith.fromList (as.map inj), Arith.fromList (bs.map inj)⟩ := rfl
+  unfold Unpaired.ci
+  rw [hu]
+  exact Unpaired.ciMean_rex_tpanic crit
+    (⟨Arith.fromList (as.map inj), Arith.fromList (bs.map inj)⟩ : Unpaired Rex) conf
+    (by simp only [hca]; exact hna) (by simp only [hcb]; exact hnb) (welchA as) (welchA bs)
+    (by simp only []; exact fromList_welchA as hna) (by simp only []; exact fromList_welchA bs hnb)
+    (by simp only [hca, hcb]; exact hd)
+
 end StatsCI.MeanLemmas
